@@ -34,7 +34,7 @@ except Exception:  # pragma: no cover
     Case = None  # type: ignore
 
 PID = "C06"
-LEAN_MODULES = ["KrroodVerif.Props.C06"]
+LEAN_MODULES = ["KrroodVerif.Props.C06", "KrroodVerif.Props.C06T"]
 THEOREMS = [
     "KrroodVerif.OrmGen.C06_valid_partial",
     "KrroodVerif.OrmGen.C06_full",
@@ -48,7 +48,62 @@ THEOREMS = [
     "KrroodVerif.OrmGen.C06_perm_invariant",
     "KrroodVerif.OrmGen.C06_cex_self_list",
     "KrroodVerif.OrmGen.C06_cex_no_builtin",
+    # second tie (Props/C06T.lean): the kind dispatch and the mapper-argument rules as tables
+    "KrroodVerif.OrmGen.genField_eq_interp",
+    "KrroodVerif.OrmGen.generate_eq_interp",
+    "KrroodVerif.OrmGen.C06_generateT_eq_of_ok",
+    "KrroodVerif.OrmGen.C06_generateT_ext",
+    "KrroodVerif.OrmGen.C06_complete_of_tables",
+    "KrroodVerif.OrmGen.C06_full_of_tables",
+    "KrroodVerif.OrmGen.C06_spec_of_tables",
+    "KrroodVerif.OrmGen.C06_perm_invariant_of_tables",
+    "KrroodVerif.OrmGen.C06_inherit_condition_of_rules",
+    "KrroodVerif.OrmGen.C06_of_translated_tables",
 ]
+TRANSLATED = ["KrroodVerif.OrmGen.Translated.C06_dispatch_translated_eq_model",
+              "KrroodVerif.OrmGen.Translated.C06_mapper_translated_eq_model",
+              "KrroodVerif.OrmGen.Translated.C06_dispatch_translated_ok",
+              "KrroodVerif.OrmGen.Translated.C06_mapper_translated_ok",
+              "KrroodVerif.OrmGen.Translated.C06_translated_meets_property"]
+
+
+def extra_obligations():
+    """Second tie: regenerate the decision list of `WrappedTable.parse_field` and the rules of
+    `WrappedTable.create_mapper_args` from /repo's CURRENT source (Python ast) and have the kernel re-check that they
+    (i) are extensionally the pinned tables (`OrmGen.dispatch`, `OrmGen.mapperRules`, for which `generate_eq_interp`
+    proves that the model IS the table-driven generator) and (ii) pass `DispatchOk` / `MapperOk`, from which
+    `C06_of_translated_tables` derives the property theorems for the generator driven by the regenerated tables."""
+    import core
+    from translate.c06_translate import generate as gen, TranslationError
+    try:
+        text = gen(core.REPO)
+    except (TranslationError, SyntaxError, OSError, RecursionError) as e:
+        return [{"name": n, "ok": False, "detail": f"translator rejected the source: {e}"} for n in TRANSLATED]
+    tmp = core.LEAN_DIR / ".lake" / "audit"
+    tmp.mkdir(parents=True, exist_ok=True)
+    f = tmp / f"C06Translated_{os.getpid()}.lean"
+    f.write_text(text + "".join(f"#print axioms {n}\n" for n in TRANSLATED))
+    try:
+        p = subprocess.run(["lake", "env", "lean", str(f)], cwd=str(core.LEAN_DIR), capture_output=True, text=True,
+                           timeout=600)
+    finally:
+        try:
+            f.unlink()
+        except OSError:
+            pass
+    out = " ".join(((p.stdout or "") + (p.stderr or "")).split())
+    res = []
+    for n in TRANSLATED:
+        m = re.search(r"'" + re.escape(n) + r"' depends on axioms: \[([^\]]*)\]", out)
+        none = re.search(r"'" + re.escape(n) + r"' does not depend on any axioms", out)
+        ax = [a.strip() for a in m.group(1).split(",")] if m else ([] if none else None)
+        # a theorem whose proof failed is either absent or carries `sorryAx`: both are "not ok"
+        ok = ax is not None and set(ax) <= core.ALLOWED_AXIOMS
+        res.append({"name": n, "ok": ok, "axioms": ax,
+                    "detail": "regenerated tables:\n" + text[text.find("def dispatch"):text.find("/-- the current source decides")]
+                              + (p.stdout or "")[-1500:] + (p.stderr or "")[-800:]})
+    return res
+
 MODEL_FUNCTION = "OrmGen.generate / OrmGen.observe / OrmGen.Spec.expected (Model/OrmGen.lean)"
 TRUSTED = [
     "Lean 4.33 kernel; axioms of each theorem listed under coverage.theorems",
